@@ -67,22 +67,30 @@ theorem byteAt_blit_out (dst src : Bytes) (doff soff len : Nat) (hd : doff + len
 
 /-! ### the section-copy step, generic in which pair is the destination -/
 
-/-- `dest = vec.get_mut(d .. d.wrapping_add(dl))`, `src = image.get(so .. so.wrapping_add(sl))`,
-copy the common prefix when both exist. -/
-def cstep (image vec : Bytes) (d dl so sl : Nat) : Bytes :=
-  let dend := wadd32 d dl
+/-- how the end of the destination range is obtained from the wrapped end `e` and the vector
+length `n`: as is (`to_view`) or clamped to the vector (`to_file`) -/
+def endExact (e _n : Nat) : Nat := e
+def endClamp (e n : Nat) : Nat := min e n
+
+theorem endExact_le (e n : Nat) : endExact e n ≤ e := Nat.le_refl _
+theorem endClamp_le (e n : Nat) : endClamp e n ≤ e := Nat.min_le_left _ _
+
+/-- `dest = vec.get_mut(d .. E(d.wrapping_add(dl), vec.len()))`,
+`src = image.get(so .. so.wrapping_add(sl))`, copy the common prefix when both exist. -/
+def cstep (E : Nat → Nat → Nat) (image vec : Bytes) (d dl so sl : Nat) : Bytes :=
+  let dend := E (wadd32 d dl) vec.size
   let send := wadd32 so sl
   if d ≤ dend ∧ dend ≤ vec.size ∧ so ≤ send ∧ send ≤ image.size then
     blit vec d image so (min (dend - d) (send - so))
   else vec
 
 theorem toViewStep_eq (image vec : Bytes) (s : Sec) :
-    toViewStep image vec s = cstep image vec s.va s.vs s.prd s.rs := rfl
+    toViewStep image vec s = cstep endExact image vec s.va s.vs s.prd s.rs := rfl
 theorem toFileStep_eq (image vec : Bytes) (s : Sec) :
-    toFileStep image vec s = cstep image vec s.prd s.rs s.va s.vs := rfl
+    toFileStep image vec s = cstep endClamp image vec s.prd s.rs s.va s.vs := rfl
 
-theorem cstep_size (image vec : Bytes) (d dl so sl : Nat) :
-    (cstep image vec d dl so sl).size = vec.size := by
+theorem cstep_size (E : Nat → Nat → Nat) (image vec : Bytes) (d dl so sl : Nat) :
+    (cstep E image vec d dl so sl).size = vec.size := by
   unfold cstep
   dsimp only
   split
@@ -90,23 +98,26 @@ theorem cstep_size (image vec : Bytes) (d dl so sl : Nat) :
   · rfl
 
 /-- the step never touches a byte outside `[d, d + min dl sl)` (whether or not it copies) -/
-theorem cstep_out (image vec : Bytes) (d dl so sl : Nat) (i : Nat)
-    (hi : i < d ∨ d + min dl sl ≤ i) :
-    byteAt (cstep image vec d dl so sl) i = byteAt vec i := by
+theorem cstep_out (E : Nat → Nat → Nat) (hE : ∀ e n, E e n ≤ e) (image vec : Bytes)
+    (d dl so sl : Nat) (i : Nat) (hi : i < d ∨ d + min dl sl ≤ i) :
+    byteAt (cstep E image vec d dl so sl) i = byteAt vec i := by
   unfold cstep
   dsimp only
   split
   · rename_i hg
+    have h0 := hE (wadd32 d dl) vec.size
     have h1 : wadd32 d dl ≤ d + dl := Nat.mod_le _ _
     have h2 : wadd32 so sl ≤ so + sl := Nat.mod_le _ _
     rw [byteAt_blit_out] <;> omega
   · rfl
 
-/-- when neither range wraps and both are inside their buffers, the common prefix is copied -/
-theorem cstep_in (image vec : Bytes) (d dl so sl : Nat)
-    (hd : d + dl < 4294967296) (hs : so + sl < 4294967296)
-    (hdv : d + dl ≤ vec.size) (hsi : so + sl ≤ image.size) (j : Nat) (hj : j < min dl sl) :
-    byteAt (cstep image vec d dl so sl) (d + j) = byteAt image (so + j) := by
+/-- when neither range wraps, the source is inside the image and the (possibly clamped)
+destination is inside the vector, the common prefix is copied -/
+theorem cstep_in (E : Nat → Nat → Nat) (image vec : Bytes) (d dl so sl : Nat)
+    (hd : d + dl < 4294967296) (hs : so + sl < 4294967296) (hsi : so + sl ≤ image.size)
+    (hE1 : E (d + dl) vec.size ≤ vec.size) (hE2 : d ≤ E (d + dl) vec.size)
+    (j : Nat) (hj : j < min (E (d + dl) vec.size - d) sl) :
+    byteAt (cstep E image vec d dl so sl) (d + j) = byteAt image (so + j) := by
   unfold cstep
   dsimp only
   have h1 : wadd32 d dl = d + dl := Nat.mod_eq_of_lt hd
@@ -117,83 +128,89 @@ theorem cstep_in (image vec : Bytes) (d dl so sl : Nat)
 /-! ### folding the step over the section table -/
 
 section fold
-variable (image : Bytes) (D DL S SL : Sec → Nat)
+variable (E : Nat → Nat → Nat) (image : Bytes) (D DL S SL : Sec → Nat)
 
 /-- the loop, for projections `D DL` (destination start / length) and `S SL` (source) -/
 def cfold (secs : List Sec) (vec : Bytes) : Bytes :=
-  secs.foldl (fun vec s => cstep image vec (D s) (DL s) (S s) (SL s)) vec
+  secs.foldl (fun vec s => cstep E image vec (D s) (DL s) (S s) (SL s)) vec
 
-theorem cfold_nil (vec : Bytes) : cfold image D DL S SL [] vec = vec := rfl
+theorem cfold_nil (vec : Bytes) : cfold E image D DL S SL [] vec = vec := rfl
 theorem cfold_cons (s : Sec) (rest : List Sec) (vec : Bytes) :
-    cfold image D DL S SL (s :: rest) vec =
-      cfold image D DL S SL rest (cstep image vec (D s) (DL s) (S s) (SL s)) := rfl
+    cfold E image D DL S SL (s :: rest) vec =
+      cfold E image D DL S SL rest (cstep E image vec (D s) (DL s) (S s) (SL s)) := rfl
 
 theorem cfold_size (secs : List Sec) (vec : Bytes) :
-    (cfold image D DL S SL secs vec).size = vec.size := by
+    (cfold E image D DL S SL secs vec).size = vec.size := by
   induction secs generalizing vec with
   | nil => rfl
   | cons s rest ih => rw [cfold_cons, ih, cstep_size]
 
-theorem cfold_out (secs : List Sec) (vec : Bytes) (i : Nat)
+theorem cfold_out (hE : ∀ e n, E e n ≤ e) (secs : List Sec) (vec : Bytes) (i : Nat)
     (h : ∀ s ∈ secs, i < D s ∨ D s + min (DL s) (SL s) ≤ i) :
-    byteAt (cfold image D DL S SL secs vec) i = byteAt vec i := by
+    byteAt (cfold E image D DL S SL secs vec) i = byteAt vec i := by
   induction secs generalizing vec with
   | nil => rfl
   | cons s rest ih =>
     rw [cfold_cons, ih _ (fun t ht => h t (List.mem_cons_of_mem _ ht)),
-      cstep_out _ _ _ _ _ _ _ (h s List.mem_cons_self)]
+      cstep_out E hE _ _ _ _ _ _ _ (h s List.mem_cons_self)]
 
-theorem cfold_in (secs : List Sec) (vec : Bytes) (s : Sec) (hs : s ∈ secs)
+theorem cfold_in (hE : ∀ e n, E e n ≤ e) (secs : List Sec) (vec : Bytes) (s : Sec) (hs : s ∈ secs)
+    (hp : secs.Pairwise (fun a b => D a + DL a ≤ D b ∨ D b + DL b ≤ D a))
+    (hd : D s + DL s < 4294967296) (hso : S s + SL s < 4294967296) (hsi : S s + SL s ≤ image.size)
+    (hE1 : E (D s + DL s) vec.size ≤ vec.size) (hE2 : D s ≤ E (D s + DL s) vec.size)
+    (j : Nat) (hj : j < min (E (D s + DL s) vec.size - D s) (SL s)) :
+    byteAt (cfold E image D DL S SL secs vec) (D s + j) = byteAt image (S s + j) := by
+  induction secs generalizing vec with
+  | nil => cases hs
+  | cons t rest ih =>
+    rw [cfold_cons]
+    obtain ⟨hhead, htail⟩ := List.pairwise_cons.1 hp
+    rcases List.mem_cons.1 hs with rfl | hmem
+    · rw [cfold_out E image D DL S SL hE]
+      · exact cstep_in E image vec _ _ _ _ hd hso hsi hE1 hE2 j hj
+      · intro u hu
+        have := hhead u hu
+        have := hE (D s + DL s) vec.size
+        omega
+    · exact ih _ hmem htail (by rw [cstep_size]; exact hE1) (by rw [cstep_size]; exact hE2)
+        (by rw [cstep_size]; exact hj)
+
+end fold
+
+/-- `to_view` flavour: the whole destination range must fit the vector -/
+theorem cfold_in_exact (image : Bytes) (D DL S SL : Sec → Nat) (secs : List Sec) (vec : Bytes)
+    (s : Sec) (hs : s ∈ secs)
     (hp : secs.Pairwise (fun a b => D a + DL a ≤ D b ∨ D b + DL b ≤ D a))
     (hd : D s + DL s < 4294967296) (hso : S s + SL s < 4294967296)
     (hdv : D s + DL s ≤ vec.size) (hsi : S s + SL s ≤ image.size)
     (j : Nat) (hj : j < min (DL s) (SL s)) :
-    byteAt (cfold image D DL S SL secs vec) (D s + j) = byteAt image (S s + j) := by
-  induction secs generalizing vec with
-  | nil => cases hs
-  | cons t rest ih =>
-    rw [cfold_cons]
-    obtain ⟨hhead, htail⟩ := List.pairwise_cons.1 hp
-    rcases List.mem_cons.1 hs with rfl | hmem
-    · rw [cfold_out]
-      · exact cstep_in image vec _ _ _ _ hd hso hdv hsi j hj
-      · intro u hu
-        have := hhead u hu
-        omega
-    · exact ih _ hmem htail (by rw [cstep_size]; exact hdv)
+    byteAt (cfold endExact image D DL S SL secs vec) (D s + j) = byteAt image (S s + j) := by
+  apply cfold_in endExact image D DL S SL endExact_le secs vec s hs hp hd hso hsi
+  · exact hdv
+  · show D s ≤ D s + DL s
+    omega
+  · show j < min (D s + DL s - D s) (SL s)
+    omega
 
-/-- a section whose destination range does not fit the vector is skipped: its range keeps the
-bytes of the initial vector (the other sections do not reach into it) -/
-theorem cfold_skip (secs : List Sec) (vec : Bytes) (s : Sec) (hs : s ∈ secs)
+/-- `to_file` flavour: only the byte in question must fit the (clamped) vector -/
+theorem cfold_in_clamp (image : Bytes) (D DL S SL : Sec → Nat) (secs : List Sec) (vec : Bytes)
+    (s : Sec) (hs : s ∈ secs)
     (hp : secs.Pairwise (fun a b => D a + DL a ≤ D b ∨ D b + DL b ≤ D a))
-    (hd : D s + DL s < 4294967296) (hbig : vec.size < D s + DL s)
-    (i : Nat) (hi : D s ≤ i ∧ i < D s + DL s) :
-    byteAt (cfold image D DL S SL secs vec) i = byteAt vec i := by
-  induction secs generalizing vec with
-  | nil => cases hs
-  | cons t rest ih =>
-    rw [cfold_cons]
-    obtain ⟨hhead, htail⟩ := List.pairwise_cons.1 hp
-    rcases List.mem_cons.1 hs with rfl | hmem
-    · have hstep : cstep image vec (D s) (DL s) (S s) (SL s) = vec := by
-        unfold cstep
-        dsimp only
-        have h1 : wadd32 (D s) (DL s) = D s + DL s := Nat.mod_eq_of_lt hd
-        rw [h1, if_neg (by omega)]
-      rw [hstep, cfold_out]
-      intro u hu
-      have := hhead u hu
-      omega
-    · rw [ih _ hmem htail (by rw [cstep_size]; exact hbig), cstep_out]
-      have := hhead s hmem
-      omega
-
-end fold
+    (hd : D s + DL s < 4294967296) (hso : S s + SL s < 4294967296)
+    (hsi : S s + SL s ≤ image.size)
+    (j : Nat) (hj : j < min (DL s) (SL s)) (hjv : D s + j < vec.size) :
+    byteAt (cfold endClamp image D DL S SL secs vec) (D s + j) = byteAt image (S s + j) := by
+  apply cfold_in endClamp image D DL S SL endClamp_le secs vec s hs hp hd hso hsi
+  · exact Nat.min_le_right _ _
+  · show D s ≤ min (D s + DL s) vec.size
+    omega
+  · show j < min (min (D s + DL s) vec.size - D s) (SL s)
+    omega
 
 theorem toView_fold (image : Bytes) (secs : List Sec) (vec : Bytes) :
-    secs.foldl (toViewStep image) vec = cfold image Sec.va Sec.vs Sec.prd Sec.rs secs vec := rfl
+    secs.foldl (toViewStep image) vec = cfold endExact image Sec.va Sec.vs Sec.prd Sec.rs secs vec := rfl
 theorem toFile_fold (image : Bytes) (secs : List Sec) (vec : Bytes) :
-    secs.foldl (toFileStep image) vec = cfold image Sec.prd Sec.rs Sec.va Sec.vs secs vec := rfl
+    secs.foldl (toFileStep image) vec = cfold endClamp image Sec.prd Sec.rs Sec.va Sec.vs secs vec := rfl
 
 /-! ### the initial vector: zero filled, then the headers -/
 
@@ -216,10 +233,10 @@ theorem initVec_zero (n : Nat) (b : Bytes) (soh : Nat) (h1 : soh ≤ n) (h2 : so
   rw [byteAt_blit_out _ _ _ _ _ (by simp; omega) (by omega) _ (by omega), byteAt_replicate_zero]
 
 theorem toView_eq (v : View) :
-    v.toView = cfold v.b Sec.va Sec.vs Sec.prd Sec.rs v.secs
+    v.toView = cfold endExact v.b Sec.va Sec.vs Sec.prd Sec.rs v.secs
       (initVec (sizeOfImage v.b) v.b (sizeOfHeaders v.b)) := rfl
 theorem toFile_eq (v : View) :
-    v.toFile = cfold v.b Sec.prd Sec.rs Sec.va Sec.vs v.secs
+    v.toFile = cfold endClamp v.b Sec.prd Sec.rs Sec.va Sec.vs v.secs
       (initVec v.fileSize v.b (sizeOfHeaders v.b)) := rfl
 
 /-- what the constructor established about the two header sizes -/
@@ -329,7 +346,7 @@ theorem HdrAgree.accept {n : Nat} {a b : Bytes} (h : HdrAgree n a b) (f : Fmt) (
   obtain ⟨b1, b2, b3, b4, b5, b6, b7, b8, b9, b10, b11, b12, b13, b14⟩ := hb
   refine ⟨by omega, hbase, b3, b4, b5, by omega, b7, b8, by omega, b10, by omega, b12, by omega, b14⟩
 
-/-! ### a minimal concrete PE32 file (non-vacuity examples, counterexample of the round trip) -/
+/-! ### a minimal concrete PE32 file (non-vacuity examples, formerly failing input of the round trip) -/
 
 private def z (n : Nat) : Bytes := Array.replicate n 0
 
